@@ -10,6 +10,14 @@ VERIF = os.path.dirname(os.path.dirname(os.path.abspath(__file__)))
 REPO = os.environ.get('PURL_REPO', '/repo')
 CRATE = os.path.join(VERIF, 'bounded')
 TARGET = os.path.join(VERIF, '.build', 'bounded')
+if REPO != '/repo' and os.environ.get('VERIF_ISOLATE'):
+    # tools/seedrun.py, tools/refrun.py: several scratch trees checked at the same time -- the harness crate and its build
+    # output live inside the scratch tree and disappear with it
+    _src = CRATE
+    CRATE = os.path.join(REPO, '.verif-build', 'bounded')
+    TARGET = os.path.join(REPO, '.verif-build', 'target-bounded')
+    if not os.path.isdir(CRATE):
+        shutil.copytree(_src, CRATE, ignore=shutil.ignore_patterns('Cargo.toml', 'Cargo.lock', 'target'))
 
 
 def build():
@@ -24,8 +32,10 @@ def build():
     except OSError:
         old = None
     if old != toml:
-        with open(os.path.join(CRATE, 'Cargo.toml'), 'w') as f:
+        tmp = os.path.join(CRATE, '.Cargo.toml.%d' % os.getpid())
+        with open(tmp, 'w') as f:
             f.write(toml)
+        os.replace(tmp, os.path.join(CRATE, 'Cargo.toml'))
     env = dict(os.environ, CARGO_NET_OFFLINE='true', PURL_REPO=REPO)
     p = subprocess.run(['cargo', 'build', '--release', '--offline', '--target-dir', TARGET], cwd=CRATE,
                        capture_output=True, text=True, env=env, timeout=1800)
